@@ -15,7 +15,7 @@ import (
 var rules = []*Rule{
 	{ID: "R1", Title: "MUST-FSYNC: durable before acknowledged", Props: []string{"C06", "C05", "C08", "C11", "C17"}, Run: ruleR1},
 	{ID: "R2", Title: "FS-ORDER: multi-step file protocols keep a recoverable order", Props: []string{"C05", "C11", "C02", "C01", "C17", "C12"}, Run: func(p *Prog) []Ob {
-		return append(append(append(append(ruleR2(p), p.overrideTargetObligations()...), p.removeRemovesLog()), p.atomicReplace()...), append(append(p.recoverReplaces(), p.recoverBeforeMigrate()...), p.whoMayRemoveSegment()...)...)
+		return append(append(append(append(ruleR2(p), p.overrideTargetObligations()...), p.removeRemovesLog()), p.atomicReplace()...), append(append(append(p.recoverReplaces(), p.recoverBeforeMigrate()...), p.whoMayRemoveSegment()...), p.migrateBeforeOpen()...)...)
 	}},
 	{ID: "R3", Title: "LOCKSET: every shared mutable field has a common guard", Props: []string{"C08", "C09", "C03"}, Run: func(p *Prog) []Ob { return append(append(ruleR3(p), ruleR3c(p)...), p.publishOrder()...) }},
 	{ID: "R6", Title: "SENTINEL-IDENTITY: compared sentinels arrive unwrapped and alive", Props: []string{"C03", "C04", "C09", "C10", "C12"}, Run: ruleR6},
@@ -25,7 +25,7 @@ var rules = []*Rule{
 		return append(append(append(ruleR10(p), p.wholeItems()...), p.eofOrigin()...), p.freshMessage()...)
 	}},
 	{ID: "R11", Title: "COPY-LOOP: every record read is accounted for", Props: []string{"C01", "C02", "C05", "C07", "C08", "C11", "C12", "C17"}, Run: func(p *Prog) []Ob {
-		return append(append(append(ruleR11(p), p.deletedSizeVersion()...), p.publishLoopObligations()...), append(append(append(p.indexTimeSeed(), p.wholeIndexCompare()...), p.scanBeforeVerdict()...), p.checkAndRecoverVerdicts()...)...)
+		return append(append(append(ruleR11(p), p.deletedSizeVersion()...), p.publishLoopObligations()...), append(append(append(p.indexTimeSeed(), p.wholeIndexCompare()...), p.scanBeforeVerdict()...), append(append(p.checkAndRecoverVerdicts(), p.publishedPositionIsWritten()...), p.recoverWritesKnownVersion()...)...)...)
 	}},
 	{ID: "R12", Title: "EFFECT-CONFINEMENT: who can change a log file", Props: []string{"C19", "C20", "C07", "C11", "C13", "C08"}, Run: func(p *Prog) []Ob { return append(ruleR12(p), p.indexConfinement()...) }},
 	{ID: "R15", Title: "FLOCK-PAIRING", Props: []string{"C19", "C02"}, Run: func(p *Prog) []Ob { return append(ruleR15(p), p.openWrappersRelease()...) }},
@@ -35,7 +35,7 @@ var rules = []*Rule{
 		return append(append(ruleR16(p), p.reindexThresholdObligation()), p.rebuildUnderIndexLock()...)
 	}},
 	{ID: "R19", Title: "VERSION-DISPATCH exhaustive", Props: []string{"C17", "C13", "C15"}, Run: func(p *Prog) []Ob {
-		return append(append(append(ruleR19(p), p.keepRewriteVersionObligations()...), p.configuredVersionVerbatim()...), append(append(p.eagerMigrationByOption(), p.everySegment()...), p.sizeInConfiguredVersion()...)...)
+		return append(append(append(ruleR19(p), p.keepRewriteVersionObligations()...), p.configuredVersionVerbatim()...), append(append(append(append(p.eagerMigrationByOption(), p.everySegment()...), p.sizeInConfiguredVersion()...), p.migrationReachableWithRecoverOrCheck()...), p.keepVersionCoversEveryFormat()...)...)
 	}},
 	{ID: "R22", Title: "SEGMENT-TYPESTATE: no use of a segment after its files were removed", Props: []string{"C12", "C01"}, Run: ruleR22},
 	{ID: "R23", Title: "MULTI-DRIVER ACCOUNTING: a round's deletions are reported", Props: []string{"C12"}, Run: ruleR23},
@@ -50,7 +50,7 @@ var rules = []*Rule{
 	{ID: "R21", Title: "HEAD-SCAN-BOUND", Props: []string{"C08"}, Run: ruleR21},
 	{ID: "R9", Title: "FORMAT-TABLES: encoder = decoder = documented layout", Props: []string{"C13", "C17", "C11", "C09", "C04", "C01"}, Run: func(p *Prog) []Ob { return append(ruleR9(p), p.headerFlagsExact()...) }},
 	{ID: "R24", Title: "USE-AFTER-ERROR: placeholder results of failed calls never reach a success", Props: []string{"C01", "C02", "C03", "C04", "C06", "C07", "C08", "C09", "C10", "C12", "C13", "C20"}, Run: ruleR24},
-	{ID: "R25", Title: "BACKUP-COMPLETENESS", Props: []string{"C20"}, Run: ruleR25},
+	{ID: "R25", Title: "BACKUP-COMPLETENESS", Props: []string{"C20"}, Run: func(p *Prog) []Ob { return append(ruleR25(p), p.staleTargetIndexRemoved()...) }},
 	{ID: "R26", Title: "HEAD-INDEX-LIVENESS", Props: []string{"C03", "C08", "C19"}, Run: func(p *Prog) []Ob { return append(ruleR26(p), p.prebuiltIndexStays()...) }},
 	{ID: "R27", Title: "KEPT-READER-NOT-HEAD", Props: []string{"C03", "C12"}, Run: func(p *Prog) []Ob { return append(ruleR27(p), p.rewriteDropsOldIndex()...) }},
 	{ID: "R28", Title: "GET-EXACT and CONSUME-BOUND", Props: []string{"C04", "C03"}, Run: func(p *Prog) []Ob { return append(append(append(ruleR28(p), p.consumeBound()...), p.newestByEquality()...), p.getPicksCoveringSegment()...) }},
